@@ -282,7 +282,13 @@ theorem instant_replay_reports_last (seed w0 : Int) (calls : List Call)
 /-- With a wall clock that never goes back, the values returned by successive `time()` calls never
 go back either — across any interleaving of reads and processed events — **provided** no accepted
 event is older than the time the clock has already extrapolated to at the instant it is processed
-(`NotBehind`; e.g. a back-test replayed at least as fast as real time). -/
+(`NotBehind`; e.g. a back-test replayed at least as fast as real time).
+
+CAUTION — the proviso is strong and is never discharged from inputs: it fails for every feed with a
+repeated exchange timestamp processed after any wall time (`repeated_timestamp_violates_not_behind`)
+and for every feed slower than the wall clock (`slow_feed_violates_not_behind`). This theorem is a
+statement about idealised replays; what holds for EVERY history is `last_never_decreases` (the stored
+time) — not the reported time. -/
 theorem reported_time_monotone (c : HistoricalClock) (calls : List Call)
     (hw : WallsFrom c.timeLiveLastEvent calls) (hb : NotBehind c calls) :
     (c.readings calls).Pairwise (· ≤ ·) :=
@@ -304,6 +310,34 @@ theorem equal_timestamp_rewinds (c : HistoricalClock) (now : Int) (h : c.timeLiv
   have h1 := (accepted_event_sets_clock c c.timeExchangeLast now (Int.le_refl _)).2
   rw [h1, time_of_ge c now (by omega)]
   exact ⟨rfl, by omega⟩
+
+/-- **`NotBehind` excludes every feed with a repeated exchange timestamp.** Whatever follows, a
+history in which an event carries the SAME exchange timestamp as the clock's stored one and is processed
+after ANY wall time has passed (`c.timeLiveLastEvent < now`) does not satisfy `NotBehind`: the hypothesis
+of `reported_time_monotone` forces zero elapsed wall time between two events with equal timestamps.
+Exchange feeds repeat timestamps routinely (several trades in one millisecond, a snapshot followed by
+its first update), so `reported_time_monotone` applies to idealised replays only (strictly increasing
+timestamps replayed at least as fast as real time, or a replay that takes no wall time:
+`instant_replay_reports_last`); on realistic replays the reported time DOES step back
+(`equal_timestamp_rewinds`, `overtaken_event_rewinds`) — the code has no guard against it. -/
+theorem repeated_timestamp_violates_not_behind (c : HistoricalClock) (now : Int) (rest : List Call)
+    (h : c.timeLiveLastEvent < now) :
+    ¬ NotBehind c (.process (some c.timeExchangeLast) now :: rest) := by
+  intro hb
+  have h1 := hb.1 c.timeExchangeLast rfl (Int.le_refl _)
+  rw [time_of_ge c now (by omega)] at h1
+  omega
+
+/-- … and so does any accepted event that is newer than the stored time by less than the wall time
+elapsed since the anchor (an event stream slower than the replay's wall clock). -/
+theorem slow_feed_violates_not_behind (c : HistoricalClock) (t now : Int) (rest : List Call)
+    (h1 : c.timeExchangeLast ≤ t) (h2 : t - c.timeExchangeLast < now - c.timeLiveLastEvent)
+    (h3 : c.timeLiveLastEvent ≤ now) :
+    ¬ NotBehind c (.process (some t) now :: rest) := by
+  intro hb
+  have h := hb.1 t rfl h1
+  rw [time_of_ge c now h3] at h
+  omega
 
 /-! ## Non-vacuity -/
 
